@@ -64,6 +64,8 @@ type Buffer struct {
 type Reader struct {
 	ref []byte
 	buf *bytes.Reader
+	// headLen is the number of bytes the head last read by readHead occupied
+	headLen int
 }
 
 //go:nosplit
@@ -365,12 +367,14 @@ func (b *Reader) readHead() (ty, tag byte, err error) {
 	}
 	ty = data & 0x0f
 	tag = (data & 0xf0) >> 4
+	b.headLen = 1
 	if tag == 15 {
 		data, err = b.buf.ReadByte()
 		if err != nil {
 			return
 		}
 		tag = data
+		b.headLen = 2
 	}
 	return
 }
@@ -379,7 +383,8 @@ func (b *Reader) readHead() (ty, tag byte, err error) {
 // unreadHead put back the current head byte.
 func (b *Reader) unreadHead(curTag byte) {
 	_ = b.buf.UnreadByte()
-	if curTag >= 15 {
+	// readHead accepts the two-byte form for tags below 15 as well: put back what was actually read
+	if curTag >= 15 || b.headLen == 2 {
 		_ = b.buf.UnreadByte()
 	}
 }
